@@ -46,6 +46,9 @@ UNIT = {
             sp_range_suppressed(sp_diag_index(old(self).db), old(self).file_id, code, range) ==> final(self).diagnostics@ == old(self).diagnostics@ /*@C20.add.suppressed-not-reported*/,
             // otherwise exactly one diagnostic is appended, carrying the configured severity and the code name
             final(self).diagnostics@.len() <= old(self).diagnostics@.len() + 1 /*@C20.add.at-most-one*/,
+            // C21: an enabled, unsuppressed code IS reported
+            must_report(old(self), code) && !sp_range_suppressed(sp_diag_index(old(self).db), old(self).file_id, code, range)
+                ==> final(self).diagnostics@.len() == old(self).diagnostics@.len() + 1 /*@C21.add.enabled-is-reported*/,
             final(self).diagnostics@.len() == old(self).diagnostics@.len() + 1 ==> ({
                 let d = final(self).diagnostics@.last();
                 &&& final(self).diagnostics@.drop_last() == old(self).diagnostics@
@@ -57,6 +60,72 @@ UNIT = {
             }) /*@C20.add.wellformed*/,
             final(self).diagnostics@.len() == old(self).diagnostics@.len() ==> final(self).diagnostics@ == old(self).diagnostics@ /*@C20.add.frame-diags*/,
             '''),
+        'LuaParseErrorKind': {'src': {'file': 'crates/emmylua_parser/src/parser_error/mod.rs', 'kind': 'enum', 'name': 'LuaParseErrorKind'},
+                              'attrs': '#[derive(Clone, Copy)]'},
+        'LuaParseError': {'src': {'file': 'crates/emmylua_parser/src/parser_error/mod.rs', 'kind': 'struct', 'name': 'LuaParseError'}},
+        'SyntaxErrorChecker::check::parse_errors': {
+            'src': {'kind': 'slice', 'name': 'report_parse_errors',
+                    'in': {'file': 'crates/emmylua_code_analysis/src/diagnostic/checker/syntax_error.rs', 'kind': 'fn',
+                           'impl': 'Checker for SyntaxErrorChecker', 'name': 'check'},
+                    'from': r'for parse_error in parse_errors \{', 'to': r'context\.add_diagnostic\(code, parse_error\.range, parse_error\.message, None\);\s*\}',
+                    'head': 'pub fn report_parse_errors(context: &mut DiagnosticContext, parse_errors: Vec<LuaParseError>)', 'tail': ''},
+            'requires': 'key_model_ok()',
+            'ensures': '''
+            final(context).file_id == old(context).file_id && final(context).db == old(context).db && final(context).config == old(context).config,
+            final(context).diagnostics@.len() <= old(context).diagnostics@.len() + parse_errors@.len(),
+            // every parse error of the file appears as a diagnostic at its location unless its code is disabled or suppressed there
+            forall|i: int| 0 <= i < parse_errors@.len()
+                && must_report(old(context), parse_error_code(parse_errors@[i].kind))
+                && !sp_range_suppressed(sp_diag_index(old(context).db), old(context).file_id, parse_error_code(parse_errors@[i].kind), parse_errors@[i].range)
+                ==> exists|j: int| old(context).diagnostics@.len() <= j < final(context).diagnostics@.len()
+                    && reports(old(context).db, old(context).file_id, #[trigger] final(context).diagnostics@[j],
+                               parse_error_code(parse_errors@[i].kind), parse_errors@[i].range, parse_errors@[i].message) /*@C21.syntax-errors-all-reported*/''',
+            'proof': [
+                (r'context\.add_diagnostic\(code, parse_error\.range, parse_error\.message, None\);', 'before',
+                 '''let ghost pre = context.diagnostics@;
+                let ghost k = it.index@;
+                proof {
+                    assert(parse_error == parse_errors@[k]);
+                    assert(code == parse_error_code(parse_errors@[k].kind));
+                    assert forall|r: bool| ctx_enabled(&*context, code, r) == ctx_enabled(old(context), code, r) by {}
+                }'''),
+                (r'context\.add_diagnostic\(code, parse_error\.range, parse_error\.message, None\);', 'after',
+                 '''proof {
+                    let post = context.diagnostics@;
+                    assert(post.len() == pre.len() || (post.len() == pre.len() + 1 && post.drop_last() == pre));
+                    assert forall|j: int| 0 <= j < pre.len() implies post[j] == pre[j] by {
+                        if post.len() == pre.len() + 1 { assert(post.drop_last()[j] == post[j]); }
+                    }
+                    assert forall|i: int| 0 <= i < k + 1
+                        && must_report(old(context), parse_error_code(parse_errors@[i].kind))
+                        && !sp_range_suppressed(sp_diag_index(old(context).db), old(context).file_id, parse_error_code(parse_errors@[i].kind), parse_errors@[i].range)
+                        implies exists|j: int| old(context).diagnostics@.len() <= j < post.len()
+                            && reports(old(context).db, old(context).file_id, #[trigger] post[j],
+                                       parse_error_code(parse_errors@[i].kind), parse_errors@[i].range, parse_errors@[i].message) by {
+                        if i < k {
+                            let j0 = choose|j: int| old(context).diagnostics@.len() <= j < pre.len()
+                                && reports(old(context).db, old(context).file_id, #[trigger] pre[j],
+                                       parse_error_code(parse_errors@[i].kind), parse_errors@[i].range, parse_errors@[i].message);
+                            assert(post[j0] == pre[j0]);
+                        } else {
+                            assert(post.len() == pre.len() + 1);
+                            assert(reports(old(context).db, old(context).file_id, post[pre.len() as int], code, parse_errors@[k].range, parse_errors@[k].message));
+                        }
+                    }
+                }'''),
+            ],
+            'iter_names': {0: 'it'},
+            'loops': {0: '''invariant
+                    key_model_ok(),
+                    context.file_id == old(context).file_id && context.db == old(context).db && context.config == old(context).config,
+                    old(context).diagnostics@.len() <= context.diagnostics@.len() <= old(context).diagnostics@.len() + it.index@,
+                    forall|i: int| 0 <= i < it.index@
+                        && must_report(old(context), parse_error_code(parse_errors@[i].kind))
+                        && !sp_range_suppressed(sp_diag_index(old(context).db), old(context).file_id, parse_error_code(parse_errors@[i].kind), parse_errors@[i].range)
+                        ==> exists|j: int| old(context).diagnostics@.len() <= j < context.diagnostics@.len()
+                            && reports(old(context).db, old(context).file_id, #[trigger] context.diagnostics@[j],
+                                       parse_error_code(parse_errors@[i].kind), parse_errors@[i].range, parse_errors@[i].message) /*@C21.syntax-errors-all-reported.inv*/,'''},
+        },
         'LuaDiagnostic': {'src': {'file': DIAG, 'kind': 'struct', 'name': 'LuaDiagnostic'},
                           'rules': [('struct-fields', {})]},
         'LuaDiagnostic::diagnose_file': {
@@ -99,6 +168,10 @@ UNIT = {
         {'name': 'report-when-disabled', 'item': 'DiagnosticContext::add_diagnostic',
          'pattern': r'if !self\.is_checker_enable_by_code\(&code\) \{\s*return;\s*\}', 'repl': '',
          'expect': r'C20\.add\.disabled-not-reported'},
+        {'name': 'doc-errors-dropped', 'item': 'SyntaxErrorChecker::check::parse_errors',
+         'pattern': r'context\.add_diagnostic\(code, parse_error\.range, parse_error\.message, None\);',
+         'repl': 'if matches!(parse_error.kind, LuaParseErrorKind::SyntaxError) { context.add_diagnostic(code, parse_error.range, parse_error.message, None); }',
+         'expect': r'C21\.syntax-errors-all-reported'},
         {'name': 'diagnose-library', 'item': 'LuaDiagnostic::diagnose_file',
          'pattern': r'&& !module_info\.is_main\(\)', 'repl': '&& module_info.is_main()',
          'expect': r'C20\.library-reports-nothing'},
